@@ -690,6 +690,194 @@ Qed.
 End KeysProofs.
 
 (* ------------------------------------------------------------------ *)
+(* mismatched public / private parts are rejected                      *)
+(* ------------------------------------------------------------------ *)
+Lemma skipn_add {A} (a b : nat) (l : list A) : skipn (a + b) l = skipn a (skipn b l).
+Proof.
+  revert l. induction b as [|b IH]; intros l.
+  - rewrite Nat.add_0_r. reflexivity.
+  - destruct l as [|x t]; [repeat rewrite skipn_nil; reflexivity|].
+    rewrite Nat.add_succ_r. cbn [skipn]. apply IH.
+Qed.
+
+Lemma halves_concat {A} (s : list A) (n : nat) : length s = (4 * n)%nat ->
+  firstn (3 * n - 2 * n) (skipn (2 * n) s) ++ firstn (4 * n - 3 * n) (skipn (3 * n) s) = skipn (2 * n) s.
+Proof.
+  intros Hl.
+  replace (3 * n - 2 * n)%nat with n by lia. replace (4 * n - 3 * n)%nat with n by lia.
+  replace (3 * n)%nat with (n + 2 * n)%nat by lia. rewrite skipn_add.
+  remember (skipn (2 * n) s) as t eqn:Et.
+  assert (Ht : length t = (2 * n)%nat) by (subst t; rewrite skipn_length; lia).
+  rewrite <- (firstn_skipn n t) at 3. f_equal.
+  rewrite firstn_all2; [reflexivity|]. rewrite skipn_length. lia.
+Qed.
+
+Section Consistency.
+Variable L : stdlib.
+
+(* Ed25519: the public part is the public key of the 32-byte seed *)
+Lemma ed25519_priv_consistent kd prefix idreq d :
+  parse_ed25519_priv L kd prefix idreq = Ok d ->
+  let fs := fields_or_nil (kd_value kd) in
+  blen (get_len 2 fs) = ed25519_seed_size
+  /\ get_len 2 (get_sub 3 fs) = ed25519_pub L (get_len 2 fs)
+  /\ d = PEd25519Priv (get_len 2 fs).
+Proof.
+  unfold parse_ed25519_priv. cbv zeta.
+  destruct (negb (kd_mat kd =? km_private)); [discriminate|].
+  destruct (negb (wire_ok _ _)); [discriminate|].
+  destruct (negb (_ && _)); [discriminate|].
+  match goal with |- context [ed25519_from_seed L ?s] => destruct (blen s =? ed25519_seed_size) eqn:E end;
+    cbn [negb]; [|discriminate].
+  apply N.eqb_eq in E. rewrite (ed25519_from_seed_ok _ _ E). cbn [bind].
+  destruct (beq _ _) eqn:B; [|discriminate]. apply beq_eq in B. intros H. inversion H. auto.
+Qed.
+
+(* RSA (plain and JWT): the key passed crypto/rsa's Validate and the three
+   CRT values of the message are the ones Precompute derives *)
+Definition rsa_crt_consistent (n : bytes) (e : N) (fs : list field) : Prop :=
+  exists dp dq qinv,
+    rsa_crt L n e (get_len 3 fs) (get_len 4 fs) (get_len 5 fs) = Some (dp, dq, qinv)
+    /\ dp = strip_zeros (get_len 6 fs) /\ dq = strip_zeros (get_len 7 fs) /\ qinv = strip_zeros (get_len 8 fs).
+
+Lemma rsa_priv_consistent pss kd prefix idreq d :
+  parse_rsa_priv L pss kd prefix idreq = Ok d ->
+  let fs := fields_or_nil (kd_value kd) in
+  let pub := get_sub 2 fs in
+  rsa_crt_consistent (get_len 3 pub) (exponent_value (rsa_exponent (get_len 4 pub))) fs
+  /\ exponent_value (rsa_exponent (get_len 4 pub)) = rsa_exponent_prim
+  /\ exists hash salt, rsa_selfcheck L pss hash salt (get_len 3 pub) rsa_exponent_prim
+                         (get_len 3 fs) (get_len 4 fs) (get_len 5 fs) = true.
+Proof.
+  unfold parse_rsa_priv. cbv zeta.
+  repeat match goal with |- (if ?c then Err else _) = Ok _ -> _ => destruct c eqn:?; [discriminate|] end.
+  destruct (rsa_crt L _ _ _ _ _) as [[[dp dq] qinv]|] eqn:V; [|discriminate].
+  destruct (negb (_ && (_ =? rsa_exponent_prim))) eqn:P; [discriminate|].
+  destruct (negb (rsa_selfcheck _ _ _ _ _ _ _ _ _)) eqn:SC; [discriminate|].
+  intros H. apply okb_ok in H. destruct H as [C _].
+  apply negb_false_iff in P. apply andb_true_iff in P. destruct P as [_ P]. apply N.eqb_eq in P.
+  apply negb_false_iff in SC. rewrite P in SC.
+  repeat rewrite andb_true_iff in C. destruct C as [[C1 C2] C3].
+  apply beq_eq in C1. apply beq_eq in C2. apply beq_eq in C3.
+  split; [|split; [exact P|eauto]].
+  exists dp, dq, qinv. auto.
+Qed.
+
+Lemma jwt_rsa_priv_consistent pss kd prefix idreq d :
+  parse_jwt_rsa_priv L pss kd prefix idreq = Ok d ->
+  let fs := fields_or_nil (kd_value kd) in
+  let pub := get_sub 2 fs in
+  rsa_crt_consistent (get_len 3 pub) (exponent_value (rsa_exponent (get_len 4 pub))) fs.
+Proof.
+  unfold parse_jwt_rsa_priv. cbv zeta.
+  repeat match goal with |- (if ?c then Err else _) = Ok _ -> _ => destruct c eqn:?; [discriminate|] end.
+  destruct (rsa_crt L _ _ _ _ _) as [[[dp dq] qinv]|] eqn:V; [|discriminate].
+  intros H. apply okb_ok in H. destruct H as [C _].
+  repeat rewrite andb_true_iff in C. destruct C as [[C1 C2] C3].
+  apply beq_eq in C1. apply beq_eq in C2. apply beq_eq in C3.
+  exists dp, dq, qinv. auto.
+Qed.
+
+(* ECIES, JWT-ECDSA: the point of the key object is the public key crypto/ecdh
+   derives from the (padded) private scalar *)
+Lemma ecies_priv_consistent kd prefix idreq d :
+  parse_ecies_priv L kd prefix idreq = Ok d ->
+  exists curve dem pt sk, d = PEcies true curve dem pt /\ ec_pub_of_priv L curve sk = Some pt
+    /\ ec_point_ok L curve pt = true.
+Proof.
+  unfold parse_ecies_priv. cbv zeta.
+  repeat match goal with |- (if ?c then Err else _) = Ok _ -> _ => destruct c; [discriminate|] end.
+  intros H. apply bind_ok in H. destruct H as [[[c dem] pt] [_ H]].
+  apply bind_ok in H. destruct H as [sk [_ H]].
+  destruct (ec_pub_of_priv L c sk) as [pt'|] eqn:E; [|discriminate].
+  destruct (negb (ec_point_ok L c pt)) eqn:V; [discriminate|]. apply negb_false_iff in V.
+  destruct (beq pt' pt) eqn:B; [|discriminate]. apply beq_eq in B. subst pt'.
+  inversion H. exists c, dem, pt, sk. auto.
+Qed.
+
+Lemma jwt_ecdsa_priv_consistent kd prefix idreq d :
+  parse_jwt_ecdsa_priv L kd prefix idreq = Ok d ->
+  exists alg pt sk, d = PJwtEcdsa true alg pt /\ ec_pub_of_priv L (jwt_curve alg) sk = Some pt.
+Proof.
+  unfold parse_jwt_ecdsa_priv. cbv zeta.
+  repeat match goal with |- (if ?c then Err else _) = Ok _ -> _ => destruct c; [discriminate|] end.
+  intros H. apply bind_ok in H. destruct H as [[alg pt] [_ H]].
+  destruct (coord_size _) as [c|]; [|discriminate].
+  apply bind_ok in H. destruct H as [sk [_ H]].
+  destruct (ec_pub_of_priv L _ sk) as [pt'|] eqn:E; [|discriminate].
+  destruct (beq pt pt') eqn:B; [|discriminate]. apply beq_eq in B. subst pt'.
+  inversion H. exists alg, pt, sk. auto.
+Qed.
+
+(* HPKE: the public key bytes are what the KEM derives from the private key
+   (crypto/ecdh, X-Wing = SHAKE256 + ML-KEM-768 + X25519, ML-KEM) *)
+Lemma hpke_priv_consistent kd prefix idreq d :
+  parse_hpke_priv L kd prefix idreq = Ok d ->
+  let fs := fields_or_nil (kd_value kd) in
+  let kem := get_u32 1 (get_sub 2 (get_sub 2 fs)) in
+  let pk := get_len 3 (get_sub 2 fs) in
+  let sk := get_len 3 fs in
+  match hpke_ecdh_curve kem with
+  | Some c => ec_pub_of_priv L c sk = Some pk /\ ec_point_ok L c pk = true
+  | None => if kem =? kem_xwing then xwing_pub L sk = Some pk
+            else if kem =? kem_mlkem768 then mlkem_pub L 768 sk = Some pk
+            else mlkem_pub L 1024 sk = Some pk
+  end.
+Proof.
+  unfold parse_hpke_priv. cbv zeta.
+  repeat match goal with |- (if ?c then Err else _) = Ok _ -> _ => destruct c; [discriminate|] end.
+  intros H. apply bind_ok in H. destruct H as [[kem pk] [Hp H]].
+  unfold hpke_pub_of in Hp. destruct (negb _) in Hp; [discriminate|].
+  match type of Hp with (if ?v then _ else _) = _ => destruct v; [|discriminate] end.
+  inversion Hp; subst kem pk. clear Hp.
+  destruct (hpke_ecdh_curve _) as [c|].
+  - destruct (ec_point_ok L c _) eqn:V; [|discriminate].
+    destruct (ec_pub_of_priv L c _) as [p|] eqn:E; [|discriminate].
+    destruct (beq p _) eqn:B; [|discriminate]. apply beq_eq in B. subst p. auto.
+  - destruct (_ =? kem_xwing).
+    + destruct (xwing_pub L _) as [p|]; [|discriminate]. destruct (beq p _) eqn:B; [|discriminate].
+      apply beq_eq in B. subst p. reflexivity.
+    + destruct (_ =? kem_mlkem768).
+      * destruct (mlkem_pub L 768 _) as [p|]; [|discriminate]. destruct (beq p _) eqn:B; [|discriminate].
+        apply beq_eq in B. subst p. reflexivity.
+      * destruct (mlkem_pub L 1024 _) as [p|]; [|discriminate]. destruct (beq p _) eqn:B; [|discriminate].
+        apply beq_eq in B. subst p. reflexivity.
+Qed.
+
+(* SLH-DSA: the public part is the second half of the private key *)
+Lemma slhdsa_priv_consistent kd prefix idreq d :
+  parse_slhdsa_priv kd prefix idreq = Ok d ->
+  let fs := fields_or_nil (kd_value kd) in
+  let sk := get_len 2 fs in
+  exists ks, blen sk = ks /\ (ks = slhdsa_key_a \/ ks = slhdsa_key_b \/ ks = slhdsa_key_c)
+    /\ get_len 2 (get_sub 3 fs) = skipn (N.to_nat (ks / 2)) sk.
+Proof.
+  unfold parse_slhdsa_priv. cbv zeta.
+  repeat match goal with |- (if ?c then Err else _) = Ok _ -> _ => destruct c; [discriminate|] end.
+  destruct (slhdsa_pub_of _ _ _) as [ks|] eqn:E; [|discriminate].
+  match goal with |- context [negb (blen ?sk =? ks)] => destruct (blen sk =? ks) eqn:El; cbn [negb]; [|discriminate];
+    set (skb := sk) in * end.
+  apply N.eqb_eq in El.
+  assert (Hks : ks = slhdsa_key_a \/ ks = slhdsa_key_b \/ ks = slhdsa_key_c).
+  { unfold slhdsa_pub_of in E. destruct (_ && _) eqn:C in E; [|discriminate]. inversion E; subst.
+    repeat rewrite andb_true_iff in C. destruct C as [[[_ C] _] _]. lia. }
+  intros H. apply bind_ok in H. destruct H as [a [Ha H]]. apply bind_ok in H. destruct H as [b [Hb H]].
+  destruct (beq _ _) eqn:B; [|discriminate]. apply beq_eq in B.
+  exists ks. split; [exact El|]. split; [exact Hks|]. rewrite <- B.
+  unfold blen in El.
+  assert (Hn : (4 * N.to_nat (ks / 4) = length skb)%nat /\ N.to_nat (ks / 2) = (2 * N.to_nat (ks / 4))%nat).
+  { destruct Hks as [->|[->| ->]]; vm_compute (N.to_nat (_ / 4)); vm_compute (N.to_nat (_ / 2));
+      unfold slhdsa_key_a, slhdsa_key_b, slhdsa_key_c in El; lia. }
+  destruct Hn as [Hn Hh]. rewrite Hh.
+  unfold slice in Ha, Hb.
+  destruct (_ && _)%bool in Ha; [|discriminate]. destruct (_ && _)%bool in Hb; [|discriminate].
+  injection Ha as <-. injection Hb as <-.
+  exact (halves_concat skb (N.to_nat (ks / 4)) (eq_sym Hn)).
+Qed.
+
+End Consistency.
+
+(* ------------------------------------------------------------------ *)
 (* accepted keysets give well-formed handles                           *)
 (* ------------------------------------------------------------------ *)
 Section HandleProofs.
